@@ -125,7 +125,9 @@ impl SimState {
             faults,
             fired: vec![0; n],
             calls: 0,
-            budget: 2_000_000,
+            // (a legitimate stream may make a few inner calls per client call, and a client may hand a
+            // megabyte over byte by byte)
+            budget: 20_000_000,
             flushes: 0,
             hash: Fnv::default(),
             record,
@@ -191,7 +193,7 @@ impl SimState {
                 hash_result(&mut self.hash, result.map(|n| n as u64));
             }
         }
-        if self.record {
+        if self.record && self.events.len() < 200_000 {
             self.events.push(ev);
         }
     }
